@@ -2,6 +2,7 @@
 pub mod c09;
 pub mod c11;
 pub mod c12;
+pub mod c13;
 pub mod c14;
 pub mod c15;
 #[cfg(feature = "fmt")]
@@ -24,6 +25,7 @@ pub fn main(args: &[String]) {
     let kv = parse_kv(&args[1.min(args.len())..]);
     let _ = &kv;
     match name {
+        "c13m" => println!("{}", c13::run(&kv)),
         "c14" => println!("{}", c14::run(&kv)),
         "c15" => println!("{}", c15::run(&kv)),
         _ => {
